@@ -4,6 +4,8 @@ import re
 import hir as H
 import mir as M
 import rulelib as L
+import symrules as SR
+import sym
 
 CRATES = ["identity_resolver", "identity_document", "identity_verification", "identity_did"]
 RS = "identity_resolver::resolution::resolver::Resolver"
@@ -108,47 +110,46 @@ def run(F, R, tier):
     fn = RS + "::resolve_multiple"
     h = F.hir(fn)
     if r2.anchor(h, fn):
-        env = H.Env(h)
-        loops = L.for_loops(h)
-        if r2.require(len(loops) == 1, (fn, "loop"), "expected one loop creating the futures"):
-            it, pat, bodyb, _ = loops[0]
-            io = H.origins(it, env, extra=re.compile(r"(::iter|::cloned|::collect|Iterator::(cloned|collect))$"))
-            r2.site("futures created for each element of %s" % sorted(map(str, io)), bodyb["sp"])
-            r2.require(io == {("param", "dids")}, (fn, "iterates-input"), "the futures are not created from the input DIDs")
-            dset = [n for n in H.walk(H.root(h)) if n.get("k") == "let" and "HashSet" in (n["pat"].get("ty") or "")]
-            r2.require(len(dset) == 1, (fn, "dedup"), "the input is not de-duplicated through a HashSet before resolution")
-            pushes = [n for n in H.walk(bodyb) if n.get("k") == "mcall" and n["name"] == "push"]
-            if r2.require(len(pushes) == 1, (fn, "push"), "expected one futures.push per DID"):
-                cl = H.strip(pushes[0]["args"][0])
-                inner = cl.get("body") if cl.get("k") == "closure" else None
-                if r2.require(inner is not None and cl.get("ckind", "").startswith("Coroutine"), (fn, "async-block"), "the pushed value is not an async block"):
-                    loopvar = [b for b in H.pat_bindings(pat)]
-                    lv_ids = {b[1] for b in loopvar}
-                    rc = [n for n in H.walk(inner) if n.get("k") == "mcall" and (H.fn_name(n) or "") == RS + "::resolve"]
-                    okr = len(rc) == 1 and H.strip(H.call_args(rc[0])[1]).get("res", {}).get("id") in lv_ids and H.origins(H.call_args(rc[0])[0], env) == {("param", "self")}
-                    r2.site("each future calls self.resolve(&did) on its own loop variable: %s" % okr, rc[0]["sp"] if rc else None)
-                    r2.require(okr, (fn, "own-did"), "a future does not resolve exactly its own DID with self.resolve")
-                    # the pair (did, doc): did is the same loop variable, doc is the closure param of map over the resolve result
-                    tups = [n for n in H.walk(inner) if n.get("k") == "tup" and len(n["es"]) == 2]
-                    okp = False
-                    for t in tups:
-                        a0 = H.strip(t["es"][0])
-                        a1 = H.origins(t["es"][1], env)
-                        if a0.get("k") == "path" and a0.get("res", {}).get("id") in lv_ids and any(o[0] == "closure_param" for o in a1):
-                            par = H.Tree(h).enclosing_closure(t)
-                            okp = True
-                    r2.site("result paired as (did, doc) with the future's own DID: %s" % okp)
-                    r2.require(okp, (fn, "paired-by-identity"), "the resolved document is not paired with the DID inside the same future (pairing by position depends on completion order)")
+        # by abstract evaluation (async blocks evaluated eagerly on a generic element of the input): every future resolves its own
+        # DID with self.resolve and hands (that DID, its document) to the collector; results come back through try_collect
+        tab = SR.Table(F, fn, opaque=r"Resolver::resolve$", rule=r2)
+        DIDS = SR.param("dids")
+        n_res = 0
+        for q in tab.paths:
+            rs = q.calls(r"Resolver::resolve$")
+            for e in rs:
+                n_res += 1
+                x = sym.term(e.args[1])
+                r2.require(sym.term(e.args[0]) == SR.SELF, (fn, "own-did"), "a future does not resolve with self.resolve")
+                r2.require(SR.derives(x, DIDS) and any(isinstance(z, tuple) and z[:1] == ("elem",) for z in sym.subterms(x)), (fn, "iterates-input"), "the futures are not created from the elements of the input DIDs: %s" % sym.fmt(x))
+                if q.succeeded(e) is True:
+                    doc = ("payload", e.result.t, "Ok", 0)
+                    paired = False
+                    for ev_ in q.events:
+                        if ev_.kind != "call" or ev_ is e:
+                            continue
+                        for a_ in ev_.args:
+                            for z in sym.subterms(sym.term(a_)):
+                                if isinstance(z, tuple) and z[:1] == ("tuple",) and len(z) == 3 and z[1] == x and z[2] == doc:
+                                    paired = True
+                    for z in sym.subterms(sym.term(q.ret)) if q.ret is not None else ():
+                        if isinstance(z, tuple) and z[:1] == ("tuple",) and len(z) == 3 and z[1] == x and z[2] == doc:
+                            paired = True
+                    r2.require(paired, (fn, "paired-by-identity"), "the resolved document is not paired with the DID inside the same future (pairing by position depends on completion order)")
+            if SR.is_success(q.ret) and isinstance(q.ret, (sym.V, sym.Sym)):
+                tcs = [e for e in q.events if e.kind == "call" and e.name == "try_collect"]
+                r2.require(bool(tcs) and SR.derives(q.ret, tcs[-1].result.t), (fn, "returns"), "resolve_multiple does not return the map gathered by try_collect (first error aborts)")
+        r2.site("each future calls self.resolve(&did) on its own element of the input and yields (did, doc): %d resolve call(s) on evaluated paths" % n_res)
+        r2.require(n_res > 0 or not tab.paths, (fn, "own-did"), "no call of self.resolve found on any evaluated path")
+        dedup = [n for n in H.walk(H.root(h)) if n.get("k") == "mcall" and n["name"] == "collect" and any("HashSet" in t for t in (n.get("targs") or []))]
+        dset = [n for n in H.walk(H.root(h)) if n.get("k") == "let" and "HashSet" in (n["pat"].get("ty") or "")]
+        r2.site("input de-duplicated through a HashSet: %s" % bool(dedup or dset))
+        r2.require(bool(dedup or dset), (fn, "dedup"), "the input is not de-duplicated through a HashSet before resolution")
         tc = [n for n in H.walk(H.root(h)) if n.get("k") == "mcall" and n["name"] == "try_collect"]
         if r2.require(len(tc) == 1, (fn, "try_collect"), "results are not gathered with try_collect (first error aborts)"):
-            lets = [n for n in H.walk(H.root(h)) if n.get("k") == "let" and "HashMap" in (n["pat"].get("ty") or "")]
-            r2.require(len(lets) == 1, (fn, "into-map"), "results are not collected into a HashMap keyed by DID")
-            r2.site("futures.try_collect::<HashMap<D, DOC>>().await?", tc[0]["sp"])
-        for n, oc in H.exits(h):
-            if oc == "Ok":
-                _, inner_ = H.ctor_class(n)
-                oo = H.origins(inner_, env)
-                r2.require(bool(oo) and all(o[0] == "call" and o[1].endswith("try_collect") for o in oo), (fn, "returns"), "resolve_multiple does not return the collected map")
+            intomap = any("HashMap" in t for t in (tc[0].get("targs") or [])) or any(n.get("k") == "let" and "HashMap" in (n["pat"].get("ty") or "") for n in H.walk(H.root(h)))
+            r2.require(intomap, (fn, "into-map"), "results are not collected into a HashMap keyed by DID")
+            r2.site("futures.try_collect::<HashMap<D, DOC>>().await", tc[0]["sp"])
         zips = [n for n in H.walk(H.root(h)) if n.get("k") == "mcall" and n["name"] in ("zip", "enumerate")]
         r2.require(not zips, (fn, "positional"), "results are matched to DIDs by position (zip/enumerate): FuturesUnordered yields in completion order")
     # no interior mutability in Resolver's fields; resolve takes &self
@@ -161,7 +162,7 @@ def run(F, R, tier):
     fdef = F.fns.get(RS + "::resolve")
     if r2.anchor(fdef, RS + "::resolve (sig)"):
         r2.require("&'" in fdef["sig"] or "&resolution" in fdef["sig"] or fdef["sig"].startswith("for<") or "(&" in fdef["sig"], (RS + "::resolve", "shared-ref"), "resolve does not take &self")
-    r2.floor(5)
+    r2.floor(4)
 
     # ------------------------------------------------------------------ R3 command siblings
     r3 = R.rule("C20-R3", "T5", "SendSyncCommand::new and SingleThreadedCommand::new perform the same steps: D::try_from(input) → DIDParsingError, handler(parsed DID), Into<DOC> / HandlerError")
